@@ -159,6 +159,9 @@ class SdkDriver:
         elif op == "add":
             tgt = self.future_of(st["target"])
             tgt.add(self.add_operand(st["other"]), mod=st.get("mod"))
+            if st["target"].get("kind") == "reg" and getattr(tgt, "reg", None) is not None:
+                # a register handle whose value changes in this segment: the new value is owed to the host at the end of it
+                self.seg_regs.setdefault(self.segment, set()).add(str(tgt.reg))
         elif op == "if":
             cond = st["cond"]
             a = self.cond_operand(st["a"])
